@@ -1,6 +1,7 @@
 package main
 
 import (
+	"go/constant"
 	"strings"
 
 	"golang.org/x/tools/go/ssa"
@@ -77,6 +78,37 @@ func init() {
 			cs := e.Calls(f, "am/cluster.OversizedMessage")
 			o.Check(len(cs) == 1, "pred-user|"+name, name+" must decide oversize with cluster.OversizedMessage (the sender's and the re-gossip suppressor's notion must agree)", nil)
 		}
+		// what is not oversized must fit into a gossip datagram: the transport's packet buffer is at least
+		// MaxGossipPacketSize, twice the oversize threshold (memberlist subtracts its own framing from it)
+		cr := o.Fn("am/cluster.Create")
+		maxPkt, okc := e.ConstInt("am/cluster", "MaxGossipPacketSize")
+		o.Require(okc, "max-packet-const", "cluster.MaxGossipPacketSize not found", nil)
+		nb := 0
+		for _, in := range AllInstrs(cr) {
+			st, ok := in.(*ssa.Store)
+			if !ok {
+				continue
+			}
+			fa, ok := st.Addr.(*ssa.FieldAddr)
+			if !ok || fieldName(fa.X.Type(), fa.Field) != "UDPBufferSize" {
+				continue
+			}
+			nb++
+			o.Site(st, "memberlist UDPBufferSize := "+e.X(cr, st.Val))
+			v, isC := st.Val.(*ssa.Const)
+			vi := int64(-1)
+			if isC && v.Value != nil {
+				vi, _ = constant.Int64Val(v.Value)
+			}
+			o.Check(isC && vi >= maxPkt, "udp-buffer", "the gossip packet buffer ("+e.X(cr, st.Val)+") is smaller than MaxGossipPacketSize ("+itoa(int(maxPkt))+"): updates just below the oversize threshold fit neither a datagram nor the reliable path and are never delivered", st)
+		}
+		o.Check(nb == 1, "udp-buffer-set", "cluster.Create must size the gossip packet buffer", nil)
+		// and the threshold is half of it
+		om2 := o.Fn("am/cluster.OversizedMessage")
+		for _, ret := range (&Walk{Fn: om2}).FromEntry().Returns() {
+			l := e.CondLit(om2, ret.Results[0])
+			o.Check(l.Atom == "("+itoa(int(maxPkt/2))+" < len(p0))" && l.Pos || l.Atom == "(len(p0) < "+itoa(int(maxPkt/2)+1)+")" && !l.Pos, "oversize-threshold", "the oversize predicate must be len > MaxGossipPacketSize/2, is "+l.String(), ret)
+		}
 		o.MinSites(3)
 	})
 
@@ -93,7 +125,14 @@ func init() {
 		o.Site(inc, "dropped counter")
 		enq := L("nb-sel:send:recv.msgc", true)
 		o.Guarded(inc, "dropped-guard", "counting a drop", enq.Neg())
-		o.Forced(fn, "dropped-forced", "a message that could not be enqueued must be counted as dropped", IsInstr(inc), enq.Neg())
+		var sel2 *ssa.Select
+		for _, in := range AllInstrs(fn) {
+			if s, ok := in.(*ssa.Select); ok && !s.Blocking {
+				sel2 = s
+			}
+		}
+		o.Require(sel2 != nil, "enqueue-try", "Broadcast no longer tries to enqueue without blocking", nil)
+		o.ForcedAfter(sel2, "dropped-forced", "a message that could not be enqueued must be counted as dropped", IsInstr(inc), enq.Neg())
 		o.MinSites(1)
 	})
 
